@@ -42,8 +42,11 @@ type c12Case struct {
 	// FastAck: the peer acknowledges a SETUP from inside the client's Write
 	// call (an instantly answering server), so that the acknowledgement can
 	// reach the reader before NewChannel has done anything after its write.
-	FastAck bool   `json:"fast_ack"`
-	Note    string `json:"note,omitempty"`
+	FastAck bool `json:"fast_ack"`
+	// PacketSize: announced by the peer before the concurrent phase (0 =
+	// the default 512 stays); requests then span several packets of it
+	PacketSize int    `json:"packet_size,omitempty"`
+	Note       string `json:"note,omitempty"`
 }
 
 type c12Hdr struct {
@@ -381,6 +384,18 @@ func c12Run(c *Ctx, cs c12Case) {
 	atomic.StoreInt32(&k.tr.YieldOnWrite, int32(cs.Yield))
 	go peer.run()
 
+	if cs.PacketSize > 0 {
+		k.tr.Feed(xport.Packet(byte(tds.TDS_BUF_RESPONSE), xport.EOM, 0, append(srv.EnvChange(srv.EnvMember{Type: 4, New: itoa(cs.PacketSize), Old: "512"}), srv.Done(srv.TokDone, 0, 0, 0)...)))
+		if !awaitIdle(k.tr, 20*time.Second) {
+			r.Inconclusive("packet size announcement not processed")
+			return
+		}
+		drainChannel(k.ch, k.ctx)
+		if got := k.conn.PacketSize(); got != cs.PacketSize {
+			r.Inconclusive("packet size %d announced, PacketSize() = %d (C11's subject)", cs.PacketSize, got)
+			return
+		}
+	}
 	var watchdogFired, newChannelStuck, starved int32
 	var c0gid int64 // the channel-0 consumer legitimately waits for unsolicited traffic
 	watchdog := time.AfterFunc(30*time.Second, func() {
@@ -438,6 +453,9 @@ func c12Run(c *Ctx, cs c12Case) {
 				n := 10
 				if crnd.Chance(1, 3) {
 					n = crnd.Range(400, 1500) // several packets
+				}
+				if cs.PacketSize > 0 && crnd.Chance(1, 2) {
+					n = crnd.Range(cs.PacketSize-200, 3*cs.PacketSize) // full packets of the announced size
 				}
 				return ch.SendPackage(ctx, &tds.LanguagePackage{Cmd: strings.Repeat("q", n)})
 			}
@@ -709,6 +727,12 @@ func runC12(c *Ctx) {
 			Yield:      rnd.Intn(3),
 			Inject:     rnd.Intn(6),
 			FastAck:    rnd.Bool(),
+		}
+		if i%4 == 1 {
+			cs.PacketSize = []int{4104, 8192, 16384}[rnd.Intn(3)]
+			if cs.Rounds > 12 {
+				cs.Rounds = 12
+			}
 		}
 		if i%3 == 2 {
 			// setup storm: many channels, hardly any traffic - the creation
